@@ -313,10 +313,17 @@ class Exec:
                 # the name handed to the constructor may lack the extension (the library adds
                 # ".tsv") - the file it must produce is `fname` either way
                 target = os.path.join(self.work, f.get("given", fname))
-                if plan["knobs"].get("symlink"):
+                spelling = sess.get("spelling")
+                if spelling == "symlink" and plan["knobs"].get("symlink"):
+                    target = os.path.join(self.root, "lnk", f.get("given", fname))
+                elif spelling == "dotted":
+                    target = os.path.join(self.work, ".", f.get("given", fname))
+                elif spelling == "updown":
+                    target = os.path.join(self.work, "..", os.path.basename(self.work), f.get("given", fname))
+                elif spelling is None and plan["knobs"].get("symlink"):
                     # the output directory is reached through a symbolic link
                     target = os.path.join(self.root, "lnk", f.get("given", fname))
-                if plan["knobs"].get("relpath"):
+                if plan["knobs"].get("relpath") is not None and spelling in (None, "relative"):
                     # the phase image's working directory is the output directory
                     target = plan["knobs"]["relpath"] + f.get("given", fname)
                 if sess.get("path_kind") == "path":
@@ -353,12 +360,15 @@ class Exec:
             if sess.get("main_stat"):
                 # the parent builds a statistics object before handing work to its workers ...
                 self._main_stat(sess, aggs, "before")
-            real_fork = plan["knobs"].get("mode") in ("procs", "forked")
+            mode = plan["knobs"].get("mode")
+            lazy = plan["knobs"].get("fork_at") == "first_run"
             for i, ops in enumerate(sess["tasks"]):
-                if real_fork:
-                    workers.append(self._spawn_remote(s, group, f"{group.name}.w{i}", sess, aggs, ops))
+                # "mixed": the same aggregator is used from threads and from forked workers at once
+                wmode = mode if mode != "mixed" else ("threads", "procs", "forked")[(plan["seed"] + i) % 3]
+                if wmode in ("procs", "forked"):
+                    workers.append(self._spawn_remote(s, group, f"{group.name}.w{i}", sess, aggs, ops, wmode, lazy))
                 else:
-                    workers.append(s.spawn(f"{group.name}.w{i}", group, self._worker, sess, aggs, ops))
+                    workers.append(s.spawn(f"{group.name}.w{i}", group, self._worker, sess, aggs, ops, wmode))
             s.join(workers)
             if sess.get("main_stat"):
                 # ... and again after all of them returned: it must see every row they wrote
@@ -375,12 +385,25 @@ class Exec:
         return True
 
     # ------------------------------------------------------------------ worker processes (real fork)
-    def _spawn_remote(self, s, group, name, sess, aggs, ops):
-        """Fork a worker process now (the running thread is the session's parent) and give it a
-        proxy task in the scheduler."""
+    def _spawn_remote(self, s, group, name, sess, aggs, ops, wmode, lazy=False):
+        """Give a worker process a proxy task in the scheduler.  The process is forked either now
+        (the running thread is the session's parent: Pool-style, all workers start from the same
+        image) or when the proxy task first runs (executor-style lazy start: the parent's threads
+        may be in the middle of their own calls at that moment)."""
+        if lazy:
+            return s.spawn(name, group, self._proxy_lazy, group, name, sess, aggs, ops, wmode)
+        cmd_w, msg_r, pid = self._fork_worker(group, name, len(s.tasks), sess, aggs, ops, wmode)
+        return s.spawn(name, group, self._proxy, cmd_w, msg_r, pid)
+
+    def _proxy_lazy(self, group, name, sess, aggs, ops, wmode):
+        t = self.sched.current
+        self.note("worker_forked_lazily")
+        cmd_w, msg_r, pid = self._fork_worker(group, name, t.tid, sess, aggs, ops, wmode)
+        return self._proxy(cmd_w, msg_r, pid)
+
+    def _fork_worker(self, group, name, tid, sess, aggs, ops, wmode):
         cmd_r, cmd_w = os.pipe()
         msg_r, msg_w = os.pipe()
-        tid = len(s.tasks)
         sys.stdout.flush()
         pid = os.fork()
         if pid == 0:
@@ -408,7 +431,7 @@ class Exec:
                 exc = None
                 try:
                     rs.wait_go()
-                    self._worker(sess, aggs, ops)
+                    self._worker(sess, aggs, ops, wmode)
                 except SimInterrupt:
                     exc = ("SimInterrupt", "", "")
                 except BaseException as e:  # noqa: BLE001 - what the code under test raises is data
@@ -425,7 +448,7 @@ class Exec:
         os.close(msg_w)
         self.parent_fds.extend([cmd_w, msg_r])
         self.child_pids.append(pid)
-        return s.spawn(name, group, self._proxy, cmd_w, msg_r, pid)
+        return cmd_w, msg_r, pid
 
     def _proxy(self, cmd_w, msg_r, pid):
         """The worker process's task in the central scheduler: performs every scheduling point,
@@ -539,11 +562,11 @@ class Exec:
                 self.v("stat_complete_rows", f"inspecting the statistics object raised {type(e).__name__}: {str(e)[:160]}")
             self.note("main_stat_" + when)
 
-    def _worker(self, sess, aggs, ops):
+    def _worker(self, sess, aggs, ops, wmode=None):
         s = self.sched
         t = s.current
         plan = self.plan
-        mode = plan["knobs"].get("mode")
+        mode = wmode or plan["knobs"].get("mode")
         procs = mode == "procs"
         t.ctx["proc"] = 0 if mode == "threads" else t.tid + 1
         if mode == "forked":
